@@ -32,8 +32,8 @@ NumCodes(s, dec, sci) ==
      ELSE IF c = 45 THEN NG!MINUS ELSE IF c = 43 THEN NG!PLUS
      ELSE IF c = dec THEN NG!DEC ELSE IF c = sci THEN NG!SCI
      ELSE IF c \in {32, 9, 10, 11, 12, 13} THEN NG!BLANK ELSE NG!OTHERC]
-Dec(v) == IF v = 0 THEN 46 ELSE 44
-Sci(v) == IF v = 0 THEN 101 ELSE 69
+Dec(v) == CASE v = 0 -> 46 [] v = 1 -> 44 [] v = 2 -> 44 [] v = 3 -> 46 [] v = 4 -> 59      \* . , , . ;
+Sci(v) == CASE v = 0 -> 101 [] v = 1 -> 69 [] v = 2 -> 101 [] v = 3 -> 100 [] v = 4 -> 120   \* e E e d x
 HugeExp(codes) == Len(NG!StripZeros(NG!Parts(codes).ed)) > 2
 NestedDelim(v) == CASE v % 3 = 0 -> <<44>> [] v % 3 = 1 -> <<44, 59>> [] v % 3 = 2 -> <<>>
 
